@@ -133,6 +133,9 @@ func classify(ev *crashfs.Event, prev *crashfs.Event) string {
 	switch {
 	case ev.Off == 0 && n == raftlog.VerifLogFileOffset:
 		return "newfile-zeros"
+	case ev.Off < slots && n >= raftlog.VerifEntrySize && allZero(ev.Data):
+		// ZeroSlots: one plain write of zeros over whole slot records (a slot of an entry never has index 0)
+		return "zerofill-zeros"
 	case ev.Off < slots && n == raftlog.VerifEntrySize && ev.Off%int64(raftlog.VerifEntrySize) == 0:
 		return "slot"
 	case ev.Off < slots && n == 4:
@@ -143,6 +146,34 @@ func classify(ev *crashfs.Event, prev *crashfs.Event) string {
 		return "payload-len"
 	}
 	return "payload-data"
+}
+
+func allZero(b []byte) bool {
+	for _, x := range b {
+		if x != 0 {
+			return false
+		}
+	}
+	return true
+}
+
+// faultOf maps the class of the failed file-system step to the fault of the Coq model (Model.save_fail):
+// clear (the write that clears discarded slots), entry j (entry number j of the batch does not become visible:
+// rot = the failing step comes after a completed rotation or no rotation was needed), hs, snap; "" = not modelled.
+func faultOf(class string) (kind string, rot bool) {
+	switch class {
+	case "zerofill-len", "zerofill-zeros":
+		return "clear", false
+	case "payload-len", "payload-data", "slot":
+		return "entry", true
+	case "truncate", "sync", "create", "newfile-zeros":
+		return "entry", false
+	case "meta-hs-len", "meta-hs-data":
+		return "hs", false
+	case "meta-snap-len", "meta-snap-data":
+		return "snap", false
+	}
+	return "", false
 }
 
 type saveCtx struct {
@@ -386,6 +417,7 @@ func (w *world) faultSave(op *Op, hs *raftpb.HardState, es []raftpb.Entry, sn *r
 	_ = os.RemoveAll(imgRoot)
 	var prev *crashfs.Event
 	hit := ""
+	slotsDone, hitJ := 0, 0
 	rec.Start(w.dir, func(ev *crashfs.Event) {
 		cl := classify(ev, prev)
 		cp := *ev
@@ -395,6 +427,10 @@ func (w *world) faultSave(op *Op, hs *raftpb.HardState, es []raftpb.Entry, sn *r
 		if uint64(ev.Seq) == op.I && cl != "meta-snapindex" && cl != "meta-snapterm" {
 			failNext = true
 			hit = cl
+			hitJ = slotsDone
+		}
+		if cl == "slot" {
+			slotsDone++
 		}
 	}, nil)
 	err := w.ds.Save(hs, es, sn)
@@ -404,6 +440,9 @@ func (w *world) faultSave(op *Op, hs *raftpb.HardState, es []raftpb.Entry, sn *r
 		return err // the Save has fewer steps: an ordinary Save
 	}
 	w.c.Stats["fault:"+hit]++
+	if fk, rot := faultOf(hit); fk != "" {
+		w.fault = &FaultObs{K: fk, J: hitJ, Rot: rot, Rep: err != nil}
+	}
 	im := image{dir: filepath.Join(imgRoot, "f"), seq: int(op.I), class: "fault-" + hit}
 	if err == nil {
 		w.c.Stats["fault-unreported:"+hit]++
@@ -428,7 +467,16 @@ func (w *world) faultSave(op *Op, hs *raftpb.HardState, es []raftpb.Entry, sn *r
 		_ = os.RemoveAll(imgRoot)
 		return nil
 	}
-	if code, msg := checkInside(view(w.ds), c); msg != "" {
+	lv := view(w.ds)
+	if w.fault != nil {
+		w.fault.F, _ = w.ds.FirstIndex()
+		w.fault.L, _ = w.ds.LastIndex()
+		w.fault.Cnt, w.fault.Sum = checksum(lv.ents)
+		if lv.err != "" {
+			w.fault = nil // nothing to compare the model with; checkInside reports it
+		}
+	}
+	if code, msg := checkInside(lv, c); msg != "" {
 		w.fail("crash:"+im.class+":"+code, "Save failed at step %d (%s); live store: %s", op.I, hit, msg)
 	}
 	if crashfs.CopyTree(w.dir, im.dir) == nil {
